@@ -508,5 +508,105 @@ def resolve_fragments():
     return [dd, fs]
 
 
+# ------------------------------------------------------------------------------------------------ the forms of a lookup agree (attribute, membership, get)
+import z3
+from pyvc.vals import IntSeq, SeqV, Unsupported, NONE as NONE_
+from pyvc.spec import Spec
+HASK = z3.Function('tree_has', IntSeq, z3.BoolSort())          # the tree on entry as an uninterpreted table over whole paths: present?, value id
+VALK = z3.Function('tree_val', IntSeq, z3.IntSort())
+
+
+def item_lookup(eng, recv, args, kw, st, n):
+    """ASSUMED model of dotdict_base.__getitem__ (its own resolution is the subject of the _resolve fragments and of the bounded tier): for a path the
+    tree holds, the value stored there; otherwise KeyError.  Nothing else about it is used."""
+    from pyvc.vals import IntV, ExcV
+    key = args[0]
+    if not isinstance(key, SeqV):
+        raise Unsupported('__getitem__ of %r' % (key,))
+    for s, ok in eng.fork(st, HASK(key.t)):
+        if ok:
+            yield s, IntV(VALK(key.t))
+        else:
+            yield s, ExcV('KeyError', 'no such path', getattr(n, 'lineno', None))
+
+
+DHAS = z3.Function('dict_has', IntSeq, z3.BoolSort())          # the top-level built-in dict underneath (a different table: its keys are single segments)
+DVAL = z3.Function('dict_val', IntSeq, z3.IntSort())
+
+
+def plain_dict_lookup(eng, recv, name, args, st, n):
+    """dict.__getitem__ / dict.get / dict.__contains__ of the underlying built-in dict (reached through super()): its own, unrelated table"""
+    from pyvc.vals import IntV, BoolV, ExcV
+    if name not in ('__getitem__', '__contains__', 'get') or not args or not isinstance(args[0], SeqV):
+        raise Unsupported('super().%s' % name)
+    k = args[0].t
+    if name == '__contains__':
+        yield st, BoolV(DHAS(k))
+        return
+    for s, ok in eng.fork(st, DHAS(k)):
+        if ok:
+            yield s, IntV(DVAL(k))
+        elif name == 'get':
+            yield s, (args[1] if len(args) > 1 else NONE_)
+        else:
+            yield s, ExcV('KeyError', 'no such key', getattr(n, 'lineno', None))
+
+
+def replay_lookup_forms(model, obligation):
+    """the forms of a lookup on real trees: every path form x present / absent / interior / indexed"""
+    import cpppo
+    trees = []
+    d = cpppo.dotdict()
+    d['a.b'] = 1
+    d['c'] = 2
+    d['l'] = [cpppo.dotdict(a=1), cpppo.dotdict(b=2)]
+    d['m.l'] = [cpppo.dotdict(a=5)]
+    for path in ('a', 'a.b', 'c', 'l[0]', 'l[1].b', 'm.l[0].a', 'x', 'a.x', 'c.x', 'm.x', 'l[0].zz', 'a.b.c'):
+        def form(f):
+            try:
+                return ('val', f())
+            except KeyError:
+                return ('absent',)
+            except AttributeError:
+                return ('absent',)
+            except Exception as e:
+                return ('error', type(e).__name__)
+        item = form(lambda: d[path])
+        attr = form(lambda: getattr(d, path))
+        try:
+            member = ('val', path in d)
+        except Exception as e:
+            member = ('error', type(e).__name__)
+        got = form(lambda: d.get(path, 'dflt'))
+        bad = None
+        if attr != item:
+            bad = 'getattr(d, %r) gives %r' % (path, attr)
+        elif item[0] != 'error' and member != ('val', item[0] == 'val'):
+            bad = '%r in d gives %r' % (path, member)
+        elif item[0] != 'error' and got != (item if item[0] == 'val' else ('val', 'dflt')):
+            bad = 'd.get(%r, dflt) gives %r' % (path, got)
+        if bad:
+            return dict(confirmed=True, function='cpppo.dotdict (attribute / membership / get forms)', input='tree %r, path %r' % (dict(d), path), observed=bad,
+                        required='the same outcome as d[%r]: %r' % (path, item))
+    return dict(confirmed=False)
+
+
+def lookup_form_specs():
+    from pyvc.vals import BoolV, IntV
+    funcs = dict(has=lambda pe, k: BoolV(HASK(k.t)), val=lambda pe, k: IntV(VALK(k.t)))
+    callees = {'__getitem__': item_lookup, 'dotdict_base.__getitem__': item_lookup}
+    note = 'whole method; __getitem__ by its assumed model (uninterpreted table over whole paths: value or KeyError)'
+    ga = Spec('dotdict_base.__getattr__', (F, 'dotdict_base.__getattr__'), params={'key': 'Str'}, cls_name='dotdict_base', fields={},
+              ensures=[('the attribute form returns what the path looks up to', 'result == val(key)')],
+              raises={'AttributeError': 'not has(key)'}, refuses=[('a path the tree does not hold', 'not has(key)')], accepts=[('a path the tree holds', 'has(key)')],
+              modifies=[], callees=callees, hints=dict(funcs=funcs, super_builtin=plain_dict_lookup), replay=replay_lookup_forms, note=note)
+    co = Spec('dotdict_base.__contains__', (F, 'dotdict_base.__contains__'), params={'key': 'Str'}, cls_name='dotdict_base', fields={},
+              ensures=[('membership agrees with lookup', 'result == has(key)')], raises={}, modifies=[], callees=callees, returns='Bool', hints=dict(funcs=funcs, super_builtin=plain_dict_lookup), replay=replay_lookup_forms, note=note)
+    ge = Spec('dotdict_base.get', (F, 'dotdict_base.get'), params={'key': 'Str', 'default': 'Int'}, cls_name='dotdict_base', fields={},
+              ensures=[('get returns the stored value, or the default exactly when the path is absent', 'result == (val(key) if has(key) else default)')],
+              raises={}, modifies=[], callees=callees, hints=dict(funcs=funcs, super_builtin=plain_dict_lookup), replay=replay_lookup_forms, note=note)
+    return [ga, co, ge]
+
+
 def contracts(repo):
-    return resolve_fragments()
+    return resolve_fragments() + lookup_form_specs()
